@@ -295,6 +295,17 @@ def ntriv(names):
     return len(set(san)) < len(san) or any(make_identifier_from_name(n) != n for n in names)
 
 
+def boundary_sets():
+    """Names whose mapped identifier is just below / at / above Fortran's 63-character limit, together with
+    names that collapse onto them after sanitising or case-folding (the unique suffix must still fit)."""
+    for L in range(48, 66):
+        for ch in "xq":
+            base = ch * L
+            yield [base, base.upper(), base[:-1] + "^", base[:-1] + "*", base[:-1] + "_"]
+            yield ["<state>" + base, "<state>" + base.upper(), "<state>" + base[:-1] + "^"]
+            yield ["<p>" + base, "<p>" + base[:-1] + "'", "<p>" + base[:-1] + "_"]
+
+
 def gen_set(rng):
     bases = ["y", "Y", "tmp", "state_y", "local_y", "lploc_y", "func_f", "y_0", "y_1", "k", "K",
              "global_state_y", "refcnt_y", "i", "I", "x" * rng.choice([30, 45, 51, 62, 64, 80]), "p_x",
@@ -349,6 +360,18 @@ def run_shard(shard, rec):
             rec.cmax("max_exhaustive_name_length", shard["maxlen"])
         else:
             rng = random.Random(shard["seed"])
+            if shard["seed"].endswith(":0"):
+                for names in boundary_sets():
+                    for order in (names, names[::-1]):
+                        lk = [("var", n) for n in order] + [("refcnt", n) for n in order[:2]]
+                        lk += [("func", "<func>" + order[0][-60:]), ("func", "<func>" + order[0][-60:].upper())]
+                        check_python([x for x in lk if x[0] in ("var", "func")], rec, False)
+                        check_fortran(lk, rec, False)
+                        for mech, why in inv.failures:
+                            rec.violation(mech, why, {"lookups": lk})
+                        inv.failures.clear()
+                        rec.case(["boundary", order], nontrivial=True)
+                        rec.count("boundary_length_sets")
             for i in range(shard["count"]):
                 names = gen_set(rng)
                 lk = [("var", n) for n in names]
